@@ -1,6 +1,7 @@
 package main
 
 import (
+	"bytes"
 	"crypto"
 	stded "crypto/ed25519"
 	"crypto/sha512"
@@ -373,6 +374,38 @@ func buildEntries(opSeed uint64, o Opt, es []Entry) []triple {
 			}
 			t.msg = seededBytes(n, opSeed, lbl("msg"), uint64(i))
 			t.sig = bcSignAs(seed, pub, t.msg, dom2(1, signCtxFor(o, signCtx)))
+		case "xdom":
+			// an honest signature of this key over this message made in
+			// ANOTHER signing domain (plain where the batch is ctx/ph, the
+			// other flag, the empty context, a neighbouring context, ...):
+			// rejected by nothing but the dom2 prefix inside the hash
+			cur := dom2(o.Hash, signCtxFor(o, signCtx))
+			raw := func(flag byte, c []byte) []byte {
+				return append(append([]byte("SigEd25519 no Ed25519 collisions"), flag, byte(len(c))), c...)
+			}
+			curFlag := byte(0)
+			if o.Hash == 1 {
+				curFlag = 1
+			}
+			sc := signCtxFor(o, signCtx)
+			nb := append([]byte{}, sc...)
+			if len(nb) > 0 {
+				nb[(e.Q>>1)%len(nb)] ^= 1 << uint(e.Q%8)
+			} else {
+				nb = []byte{byte(e.Q)}
+			}
+			shorter := sc
+			if len(shorter) > 0 {
+				shorter = shorter[:len(shorter)-1]
+			}
+			cands := [][]byte{nil, raw(1-curFlag, nil), raw(1-curFlag, sc), raw(curFlag, nb), raw(curFlag, nil), raw(curFlag, shorter), nil, raw(0, nil)}
+			for k := 0; k < len(cands); k++ {
+				d := cands[(e.P+k)%len(cands)]
+				if !bytes.Equal(d, cur) {
+					t.sig = bcSignAs(seed, pub, t.msg, d)
+					break
+				}
+			}
 		case "mix":
 			// mixed-order key A+T signed with the patched public half
 			ti := 1 + e.P%7
